@@ -479,6 +479,111 @@ def build_stiff(spec):
     seq.add(Pulse(BlackmanWaveform(spec["dur"], 2 * np.pi), RampWaveform(spec["dur"], -5.0, 10.0), 0.3), "ch")
     return seq, reg
 
+
+# ---- (e) ownership of the initial state; repeated runs --------------------------------------------------------
+# krylov_exp normalises its input in place: the evolving state must be a private copy of config.initial_state.
+# After every run the config's and the user's tensors are bit-identical to before and share no storage with the
+# evolving state; the same config / the same backend object run twice, and n_trajectories=2 with identical
+# (noise-free) trajectories, reproduce the same results.  Non-normalised initial vectors included (emu-sv evolves
+# them linearly: the reference is the dense propagator applied to the same vector).
+def ownership_case(rng):
+    mode = rng.choice(["hand", "hand", "pulser"])
+    n = rng.choice([1, 2, 3, 4])
+    scale = rng.choice([1.0, 1.0, 0.5, 2.0, 3.0])
+    case = {"kind": "ownership", "mode": mode, "n": n, "scale": scale, "seed": rng.randrange(2 ** 31), "tol": 1e-10}
+    if mode == "hand":
+        case["prob"] = D.random_problem(rng, n, rng.choice([2, 4, 7]), dt=rng.choice([5.0, 10.0, 23.0]))
+    else:
+        spec = seq_spec(rng, n=n)
+        spec.update(layout=rng.choice(["global", "global+local"]), rel=[0.5, 1.0], tol=1e-10)
+        case["spec"] = spec
+    return case
+
+
+def check_ownership(ctx, case):
+    import random as _random
+    import torch
+    import emu_sv
+    from pulser.backend import Occupation, StateResult
+    from props.c16 import impl_captured, ownership_check
+
+    r2 = _random.Random(case["seed"])
+    n = case["n"]
+    v = np.array([complex(r2.gauss(0, 1), r2.gauss(0, 1)) for _ in range(2 ** n)])
+    v = v / np.linalg.norm(v) * case["scale"]
+    user = torch.tensor(v, dtype=torch.complex128)
+    before = user.clone()
+    ini = emu_sv.StateVector(user, gpu=False)
+    ser = _ser(case)
+    what = f" ({case['mode']}, |psi0| = {case['scale']})"
+    finals, occs = [], []
+    lim = None
+    try:
+        with warnings.catch_warnings():
+            warnings.simplefilter("ignore")
+            if case["mode"] == "hand":
+                prob = case["prob"]
+                cfg = emu_sv.SVConfig(observables=[StateResult(evaluation_times=[1.0]), Occupation(evaluation_times=[1.0])],
+                                      log_level=logging.CRITICAL, gpu=False, initial_state=ini, krylov_tolerance=case["tol"])
+                data = D.to_sequence_data(prob)
+                for rep in range(2):
+                    with impl_captured() as cap:
+                        res = emu_sv.SVBackend._run_from_sequence_data(data, cfg)
+                    finals.append(res.get_result("state", 1.0).data.clone())
+                    ownership_check(ctx, ser, cap, [("config.initial_state.data", cfg.initial_state.data, before),
+                                                    ("the user's initial state tensor", user, before)],
+                                    f" (run {rep + 1}{what})")
+                om, de, ph = (np.array(prob[k], dtype=float) for k in ("omega", "delta", "phi"))
+                ref, _ = evolve(om, de, ph, lambda t: np.array(prob["U"]), prob["times"], psi0=v)
+                lim = (FLOOR + SAFETY * prob["steps"] * case["tol"]) * max(1.0, case["scale"])
+                err = float(np.abs(finals[0].numpy().reshape(-1) - ref[-1]).max())
+                if err > lim:
+                    ctx.violation(f"emu-sv final state differs from the dense propagator applied to the initial vector by "
+                                  f"{err:.3g} (> {lim:.3g}){what}", {"case": ser, "finding_key": "sv-dynamics-initial-state"})
+            else:
+                seq, reg = build_seq(case["spec"])
+
+                def config(ntraj):
+                    return emu_sv.SVConfig(dt=case["spec"]["dt"], log_level=logging.CRITICAL, gpu=False, initial_state=ini,
+                                           krylov_tolerance=case["tol"], n_trajectories=ntraj,
+                                           observables=[StateResult(evaluation_times=[1.0]), Occupation(evaluation_times=[1.0])])
+                cfg = config(1)
+                backend = emu_sv.SVBackend(seq, config=cfg)
+                for rep in range(2):       # run() twice on the same backend object
+                    with impl_captured() as cap:
+                        res = backend.run()
+                    finals.append(res.get_result("state", 1.0).data.clone())
+                    occs.append(np.asarray(res.get_result("occupation", 1.0), dtype=float))
+                    ownership_check(ctx, ser, cap, [("config.initial_state.data", cfg.initial_state.data, before),
+                                                    ("the user's initial state tensor", user, before)],
+                                    f" (run() call {rep + 1}{what})")
+                cfg2 = config(2)           # two identical noise-free trajectories, aggregated
+                with impl_captured() as cap:
+                    res2 = emu_sv.SVBackend(seq, config=cfg2).run()
+                ownership_check(ctx, ser, cap, [("config.initial_state.data", cfg2.initial_state.data, before),
+                                                ("the user's initial state tensor", user, before)],
+                                f" (n_trajectories=2{what})")
+                o2 = np.asarray(res2.get_result("occupation", 1.0), dtype=float)
+                if cap.count != 2:
+                    ctx.violation(f"n_trajectories=2 simulated {cap.count} runs{what}", {"case": ser, "finding_key": "repeat-run-differs"})
+                if float(np.abs(o2 - occs[0]).max()) > 1e-12 * max(1.0, case["scale"] ** 2):
+                    ctx.violation(f"the mean over 2 identical trajectories differs from a single run by "
+                                  f"{float(np.abs(o2 - occs[0]).max()):.3g}{what}",
+                                  {"case": ser, "finding_key": "repeat-run-differs"})
+    except Exception as ex:  # noqa: BLE001
+        ctx.violation(f"emu-sv raised on a valid run with an initial state{what}: {ex!r}",
+                      {"case": ser, "finding_key": "sv-raises-initial-state"})
+        return
+    if len(finals) == 2 and float((finals[0] - finals[1]).abs().max()) > 1e-12 * max(1.0, case["scale"]):
+        ctx.violation(f"two runs with the same config and initial state end in different states (max difference "
+                      f"{float((finals[0] - finals[1]).abs().max()):.3g}){what}",
+                      {"case": ser, "finding_key": "repeat-run-differs"})
+    hist = ctx.extra.setdefault("ownership_cases", {})
+    key = f"{case['mode']}/{'normalised' if case['scale'] == 1.0 else 'non-normalised'}"
+    hist[key] = hist.get(key, 0) + 1
+    ctx.count_case({"kind": "ownership", "mode": case["mode"], "n": n, "scale": case["scale"]},
+                   nontrivial=case["scale"] != 1.0)
+
 # ---- oracle ------------------------------------------------------------------------------------------
 def judge(ctx, case, errs, nsteps):
     worst = {k: max(e[k] for e in errs) for k in ("occ", "cor", "state", "norm", "en", "e2", "var")}
@@ -553,7 +658,7 @@ def _ser(case):
 
 def _deser(c):
     c = dict(c)
-    if c.get("kind") == "hand":
+    if c.get("kind") in ("hand", "ownership") and "prob" in c:
         p = dict(c["prob"])
         for k in ("omega", "delta", "phi", "U"):
             p[k] = np.array(p[k])
@@ -567,6 +672,7 @@ def corpus_cases():
 
 
 def run(ctx):
+    warnings.showwarning = lambda *a, **k: None   # pulser re-enables "Skipping aggregation of `state`" inside aggregate
     common.coq_make(["Model/SvMachine.vo"])
     common.standard_proof_stage(ctx, "C01", ["Properties/C01.vo"])
     trace_stage(ctx, ctx.n(120, 3000))
@@ -577,6 +683,9 @@ def run(ctx):
     corpus_refused = 0
     for c in corpus_cases():
         case = _deser(c)
+        if case["kind"] == "ownership":
+            check_ownership(ctx, case)
+            continue
         if case["kind"] == "hand":
             errs, nsteps = run_hand(case), case["prob"]["steps"]
         else:
@@ -588,6 +697,8 @@ def run(ctx):
         judge(ctx, case, errs, nsteps)
     e2e_stage(ctx, ctx.n(25, 700), ctx.n(20, 500), ctx.n(4, 60))
     ctx.extra["stiff_runs"]["corpus_refused"] = corpus_refused
+    for _ in range(ctx.n(12, 200)):
+        check_ownership(ctx, ownership_case(ctx.rng))
     bad = [x for x in KRYLOV_STATS if x[3] != 0 or (not x[4] and x[2] != x[1])]
     ctx.extra["krylov_entry_point"] = {"runs": len(KRYLOV_STATS), "refused": sum(1 for x in KRYLOV_STATS if x[4]),
                                        "wrapper_calls": sum(x[2] for x in KRYLOV_STATS)}
@@ -611,7 +722,10 @@ def run(ctx):
                 "phases) vs an independent dense expm reference: occupation, correlation, state amplitudes, norm, "
                 "energy, second moment, variance at several evaluation times. (d) stiff runs (7-8 atoms on a jittered "
                 "two-row register at 4.6-5.4 um, dt 50/100/200 ns, tolerance 1e-10): either refused with RecursionError "
-                "(counted, evidence stiff_runs) or accurate to the same bound.")
+                "(counted, evidence stiff_runs) or accurate to the same bound. (e) ownership / repeat: random initial vectors of "
+                "norm 0.5..3 on hand-built data (same config run twice, final state vs the dense propagator) and on real "
+                "sequences (run() twice on one backend; n_trajectories=2): config.initial_state and the user's tensor "
+                "bit-identical after every run, no storage shared with the evolving state, repeated runs identical.")
     ctx.trusted_base += ["hand-written Model/SvMachine.v, tied by the trace correspondence on every run",
                          "recording stubs' faithfulness to the kernel signatures (EvolveStateVector.apply / "
                          "get_hamiltonian)",
@@ -638,6 +752,9 @@ def replay(ctx, path):
         return
     case = _deser(rp["case"])
     ctx.extra["e2e_worst"] = {}
+    if case.get("kind") == "ownership":
+        check_ownership(ctx, case)
+        return
     if case["kind"] == "hand":
         errs, nsteps = run_hand(case), case["prob"]["steps"]
     else:
